@@ -288,6 +288,44 @@ func fnv(b []byte) uint64 {
 	return h
 }
 
+// tokOf renders a byte string as an op token: hex, or - for a large string that is a short pattern
+// repeated - `gen:<hex pattern>:<n>`, so that op lines with multi-megabyte compressible plaintexts
+// stay short (the driver expands the same token).
+func tokOf(b []byte) string {
+	if len(b) > 1<<16 {
+		for k := 1; k <= 16; k++ {
+			periodic := true
+			for i := k; i < len(b) && periodic; i++ {
+				periodic = b[i] == b[i-k]
+			}
+			if periodic {
+				return "gen:" + core.Hex(b[:k]) + ":" + strconv.Itoa(len(b))
+			}
+		}
+	}
+	return core.Hex(b)
+}
+
+func unhexTok(t string) ([]byte, bool) {
+	if !strings.HasPrefix(t, "gen:") {
+		return core.Unhex(t)
+	}
+	parts := strings.Split(t, ":")
+	if len(parts) != 3 {
+		return nil, false
+	}
+	pat, ok := core.Unhex(parts[1])
+	n, err := strconv.Atoi(parts[2])
+	if !ok || err != nil || len(pat) == 0 || n < 0 || n > 1<<26 {
+		return nil, false
+	}
+	out := make([]byte, n)
+	for i := range out {
+		out[i] = pat[i%len(pat)]
+	}
+	return out, true
+}
+
 func showBytes(b []byte) string {
 	if len(b) <= 48 {
 		return core.Hex(b)
@@ -577,7 +615,7 @@ func (e *ex) doOther(t []string) core.Result {
 			}
 			return core.Result{Impl: "ok"}
 		}
-		p, ok := core.Unhex(t[3])
+		p, ok := unhexTok(t[3])
 		if !ok || err != nil || !bytes.Equal(got, p) {
 			return core.Result{Impl: "table-mismatch"}
 		}
@@ -586,7 +624,7 @@ func (e *ex) doOther(t []string) core.Result {
 		if len(t) != 4 {
 			return bad
 		}
-		p, ok1 := core.Unhex(t[2])
+		p, ok1 := unhexTok(t[2])
 		w, ok2 := core.Unhex(t[3])
 		if !ok1 || !ok2 || !bytes.Equal(realEncode(t[1], p, 0), w) {
 			return core.Result{Impl: "table-mismatch"}
